@@ -441,7 +441,7 @@ def gen_exhaustive(level):
             g = G()
             w = g.wrappers()[wi]
             l = g.leaves()[li]
-            out.append((("exh1", w[0], l[0]), w[1](list(l[1])), None, {l[0]}))
+            out.append((("exh1", w[0], l[0]), w[1](list(l[1])), "echo end $? $LINENO", {l[0]}))
     g = G()
     out.append((("exh1", "top", "defect"), g.defect_leaf(), None, set(g.feats)))
     g = G()
@@ -452,7 +452,7 @@ def gen_exhaustive(level):
                 g = G()
                 la = g.leaves()[a]
                 lb = g.leaves()[b]
-                out.append((("exh2", la[0], lb[0]), list(la[1]) + list(lb[1]), None, {la[0], lb[0]}))
+                out.append((("exh2", la[0], lb[0]), list(la[1]) + list(lb[1]), "echo end $? $LINENO", {la[0], lb[0]}))
     return out
 
 
